@@ -6,16 +6,16 @@ CONSTANTS
   Keys = {1}
   InitList <- GenInitList
   SaltSz <- GenSaltSz
-  Senders = {1, 2, 7, 8}
-  Targets = {1, 2}
+  Senders = {1, 2, 3, 7, 8}
+  Targets = {1, 2, 3}
   DnsPort = {2, 8}
-  Allowed = {1, 2}
-  Unsendable = {}
+  Allowed = {1, 2, 3}
+  Unsendable = {3}
   DisarmFirst = TRUE
   Fam <- GenFam
   DgAlpha <- GenDgVirt
   RpAlpha <- GenRpVirt
-  MidAlpha <- NoMid
+  MidAlpha <- GenMidVirt
   Sync = TRUE
   T = 2
   DNST = 4
